@@ -51,7 +51,7 @@ def own (kv : KV) : String :=
     let c : Ctx := ⟨n, bad, fun i => callBad = some i, fun i => if cloneBad = some i then none else some (1000 + i), fun _ => .done, (0, none), {}⟩
     let xs := (List.range n).map (· + 1)
     let op := kv.getD "op" ""
-    let plA := kv.getD "kind" "tr" = "pl"
+    let plA := kv.getD "kind" "tr" = "pl" || kv.getD "kind" "tr" = "zu"
     let visible (e : Ev) : Bool :=
       match e with
       | .drop x => !(plA && decide (1 ≤ x) && decide (x ≤ 100))
